@@ -1020,8 +1020,9 @@ def stack_files(fs, stackdim, coordkeys=None):
     from PseudoNetCDF.sci_var import Pseudo2NetCDF
     p2p = Pseudo2NetCDF(verbose=0)
     p2p.addDimensions(tmpf, f)
-    f.createDimension(stackdim, sum(
+    stackd = f.createDimension(stackdim, sum(
         [len(dims[stackdim]) for dims in dimensions]))
+    stackd.setunlimited(tmpf.dimensions[stackdim].isunlimited())
     p2p.addGlobalProperties(tmpf, f)
     for tmpf in fs:
         for varkey, var in tmpf.variables.items():
